@@ -8,11 +8,11 @@ def unhex(s):
 
 
 class Pass:
-    __slots__ = ('i', 'op', 'now', 'delivered', 'reads', 'writes', 'sys', 'clients', 'args', 'devs', 'interest', 'polltmo', 'tmo', 'died', 'raw')
+    __slots__ = ('i', 'op', 'now', 'delivered', 'reads', 'writes', 'sys', 'clients', 'args', 'devs', 'interest', 'polltmo', 'tmo', 'died', 'raw', 'teardown')
 
     def __init__(self):
         self.delivered = {}; self.reads = {}; self.writes = {}; self.sys = []; self.clients = {}; self.args = {}
-        self.devs = {}; self.interest = {}; self.polltmo = None; self.tmo = None; self.died = False
+        self.devs = {}; self.interest = {}; self.polltmo = None; self.tmo = None; self.died = False; self.teardown = False
 
 
 def parse(sim):
@@ -52,5 +52,14 @@ def parse(sim):
             elif w[0] == "O" and w[1] == "interest": p.interest[int(w[2])] = int(w[3])
             elif w[0] == "O" and w[1] == "polltmo": p.polltmo = int(w[2])
             elif w[0] == "O" and w[1] == "tmo": p.tmo = None if w[2] == "none" else int(w[2])
+        out.append(p)
+    td = sim.get('teardown')
+    if td is not None:
+        p = Pass(); p.i = len(out); p.op = 'Q'; p.raw = td; p.now = out[-1].now if out else 0
+        p.teardown = True
+        for l in td:
+            w = l.split()
+            if l == 'DIED': p.died = True
+            elif w and w[0] == 'Y': p.sys.append(w[1:])
         out.append(p)
     return out
